@@ -53,14 +53,14 @@ func (f *c12Front) close() {
 
 var outageHits int32
 
-var c12Vias = []string{"iface", "basic", "api", "sasl", "ldap"}
+var c12Vias = []string{"iface", "basic", "api", "sasl", "ldap", "upgrade-request"}
 
 func c12Barrier(iface *Store) {
 	iface.Update("zz-barrier-nonexistent", "x") //nolint:errcheck
 }
 
 func TestVerifC12(t *testing.T) {
-	R := vr.New("C12", "upgrades", "(a) library: upgradeable == (record set id != default) for every record x every default x right/wrong password; (b) agent with local upgrades on stores mixing 4 parameter sets and both algorithms, every default (incl. a default switched by SIGHUP reload), admin and ordinary users with auxiliary data, logins with right / wrong / near-miss passwords over the Store interface, HTTP basic-auth, HTTP API, SASL socket and LDAP bind; after each login and a FIFO barrier the record must be byte-identical or a strict record under the default set for exactly the login password with same extension and auxiliary bytes, and it MUST be rewritten when the login was right, the hash upgradeable and the policy satisfied; (c) upgrades off: directory byte- and inode-identical after any number of authentications; (d) remote mode: the master sees user + old password and no new password, the slave directory never changes. Non-trivial: every login of an existing user; distinct by (default, record set, frontend, password class, policy)")
+	R := vr.New("C12", "upgrades", "(a) library: upgradeable == (record set id != default) for every record x every default x right/wrong password; (b) agent with local upgrades on stores mixing 4 parameter sets and both algorithms, every default (incl. a default switched by SIGHUP reload), admin and ordinary users with auxiliary data, logins with right / wrong / near-miss passwords over the Store interface, HTTP basic-auth, HTTP API, SASL socket, LDAP bind and the old-password-only form of /api/update (what a slave sends to its master), passwords incl. ones ending in LF / CR LF / blank; after each login and a FIFO barrier the record must be byte-identical or a strict record under the default set for exactly the login password with same extension and auxiliary bytes, and it MUST be rewritten when the login was right, the hash upgradeable and the policy satisfied; (c) upgrades off: directory byte- and inode-identical after any number of authentications; (d) remote mode: the master sees user + old password and no new password, the slave directory never changes. Non-trivial: every login of an existing user; distinct by (default, record set, frontend, password class, policy)")
 	defer R.Write()
 	rng := R.Rand("c12")
 	c12Library(R, rng)
@@ -98,6 +98,8 @@ func c12Users(sets []ref.ParamSet) []ovlUser {
 		us = append(us, ovlUser{Name: fmt.Sprintf("adm%d", s.ID), Pw: fmt.Sprintf("Correct-Horse-Battery-%d-admin!", s.ID), Admin: true, Set: s.ID, Aux: "totp: QUJDREVG\nu2f: R0hJSg=="})
 		us = append(us, ovlUser{Name: fmt.Sprintf("usr%d", s.ID), Pw: fmt.Sprintf("Tr0ub4dor&%d-zebra-lamp-quartz", s.ID), Set: s.ID, Aux: ""})
 		us = append(us, ovlUser{Name: fmt.Sprintf("weak%d", s.ID), Pw: fmt.Sprintf("abc%d", s.ID), Set: s.ID, Aux: "totp: QQ==\r\nx: \xff\xfe binary\n"})
+		// passwords whose last bytes are line ends or blanks (every frontend transports them)
+		us = append(us, ovlUser{Name: fmt.Sprintf("nl%d", s.ID), Pw: fmt.Sprintf("Quartz-Zebra-Lamp-%d-tail", s.ID) + []string{"\n", "\r\n", " ", "\t\n"}[int(s.ID)%4], Set: s.ID, Aux: "totp: QUJD\n"})
 	}
 	return us
 }
